@@ -6,6 +6,7 @@ spec (typed lines).
 
 A case:  {'acts': {lid: act}, 'ops': [op, ...]}
   op = ['submit', id, text, hascb] | ['bytes', text] | ['lost', clean] | ['whendisc', rid]
+     | ['ondisc', rid]                 -- a callback chained on the deprecated `proto.on_disconnect` Deferred (it passes its argument on)
      | ['resubmit', id, text, hascb]   -- a submission made from inside the result callback of the command that the
                                           preceding bytes op resolves (its last line is that command's final line); for
                                           the model and the spec this is the submission that follows those bytes
@@ -133,15 +134,16 @@ class Impl:
             if act[0] == 'x':
                 raise RuntimeError('listener %d raises' % lid)
             if act[0] == 'rm':
-                self.watch(self.proto.remove_event_listener(act[1], self.listener(act[2])), act[3])
+                self.watch(self.proto.remove_event_listener(act[1], self.listener(act[2])), act[3], arm=False)
             elif act[0] == 'ad':
-                self.watch(self.proto.add_event_listener(act[1], self.listener(act[2])), act[3])
+                self.watch(self.proto.add_event_listener(act[1], self.listener(act[2])), act[3], arm=False)
         self.cbs[lid] = cb
         return cb
 
-    def watch(self, d, cid, none_ok=True):
+    def watch(self, d, cid, none_ok=True, arm=True):
         def reenter():
-            if self.armed is not None:
+            # (a request a listener makes while an event is delivered is not "the result callback of the command these bytes resolve")
+            if arm and self.armed is not None:
                 op, self.armed = self.armed, None
                 self.consumed = op
                 if op[0] == 'relost':
@@ -194,6 +196,19 @@ class Impl:
             return None
         d.addBoth(notified)
 
+    def ondisc(self, op):
+        from twisted.python.failure import Failure
+        rid = op[1]
+        d = self.proto.on_disconnect
+        if d is None:
+            self.log.append('legacygone %d' % rid)
+            return
+
+        def told(r, rid=rid):
+            self.log.append('legacy %d %s' % (rid, 'eb' if isinstance(r, Failure) else 'cb'))
+            return r
+        d.addBoth(told)
+
     def inner(self, op):
         if op[0] == 'submit':
             self.submit(op)
@@ -236,6 +251,8 @@ class Impl:
                 self.armed = None
             elif k == 'whendisc':
                 self.whendisc(op)
+            elif k == 'ondisc':
+                self.ondisc(op)
             elif k == 'nested':
                 lst = self.nested.get(op[1], [])
                 k2 = next((j for j, x in enumerate(lst) if x == op[2] and (op[1], j) not in self.performed), None)
@@ -323,6 +340,8 @@ def op_line(op):
         return 'lost'
     if k == 'whendisc':
         return 'whendisc %d' % op[1]
+    if k == 'ondisc':
+        return 'ondisc %d' % op[1]
     if k == 'nested':
         return op_line(op[2])
     return '%s %s %d %d' % (k, hexs(op[1]), op[2], op[3])
@@ -342,6 +361,10 @@ def driver_lines(case):
     lines = ['reset ' + ' '.join(act_word(l, a) for l, a in sorted(case.get('acts', {}).items()))]
     idx = [None]
     for i, op in enumerate(case['ops']):
+        if op[0] in ('lost', 'relost'):
+            # the close reason is an input of its own, read by the loss that follows (its answer line is skipped)
+            lines.append('m reason %d' % (1 if op[1] else 0))
+            idx.append(None)
         lines.append('m ' + op_line(op))
         idx.append(('m', op[0]))
     for i, op in enumerate(case['ops']):
@@ -350,6 +373,9 @@ def driver_lines(case):
                 lines.append('s ' + tl_line(tl))
                 idx.append(('s', 'tl'))
         else:
+            if op[0] in ('lost', 'relost'):
+                lines.append('s reason %d' % (1 if op[1] else 0))
+                idx.append(None)
             lines.append('s ' + op_line(op))
             idx.append(('s', op[0]))
     return lines, idx
@@ -489,7 +515,7 @@ def gen_session(rng, *, n_steps=30, events=False, listeners=False, loss=False, a
           if loss and (steps > n_steps // 3) and not lost and rng.random() < 0.15:
               choices = ['lost']
           if loss:
-              choices += ['whendisc']
+              choices += ['whendisc', 'ondisc']
           if not choices:
               break
           c = rng.choice(choices)
@@ -572,6 +598,9 @@ def gen_session(rng, *, n_steps=30, events=False, listeners=False, loss=False, a
                   do(sub)
               for rid, inner in waiting_nested:
                   do(['nested', rid, inner])
+          elif c == 'ondisc':
+              whendisc_n += 1
+              do(['ondisc', 9000 + whendisc_n])
           elif c == 'whendisc':
               whendisc_n += 1
               rid = 9000 + whendisc_n
